@@ -48,17 +48,18 @@ type report struct {
 }
 
 var (
-	flagDir     = flag.String("dir", ".", "directory to run the go command in (module root of the copy)")
-	flagPkg     = flag.String("pkg", "./template", "package pattern to instrument")
-	flagMode    = flag.String("mode", "full", "full (R1-R5) | locks (R1,R4,R5) | seams (R4,R5)")
-	flagStd     = flag.Bool("std", false, "standard-library flavour: call package-local Sim* hook variables instead of importing simrt")
-	flagOut     = flag.String("out", "", "std flavour: directory to write instrumented copies to (originals untouched)")
-	flagOverlay = flag.String("overlay", "", "std flavour: overlay JSON file to write")
-	flagBase    = flag.Int("sitebase", 0, "first site id")
-	flagReport  = flag.String("report", "", "write a JSON report here")
-	flagSimrt   = flag.String("simrt", "github.com/google/safehtml/simrt", "import path of simrt")
-	flagTags    = flag.String("tags", "", "build tags")
-	flagYieldFn = flag.String("yieldfn", "Yield", "simrt function called at yield sites: Yield (scheduling point) or Tick (budget only)")
+	flagDir        = flag.String("dir", ".", "directory to run the go command in (module root of the copy)")
+	flagPkg        = flag.String("pkg", "./template", "package pattern to instrument")
+	flagMode       = flag.String("mode", "full", "full (R1-R5) | locks (R1,R4,R5) | seams (R4,R5)")
+	flagStd        = flag.Bool("std", false, "standard-library flavour: call package-local Sim* hook variables instead of importing simrt")
+	flagOut        = flag.String("out", "", "std flavour: directory to write instrumented copies to (originals untouched)")
+	flagOverlay    = flag.String("overlay", "", "std flavour: overlay JSON file to write")
+	flagBase       = flag.Int("sitebase", 0, "first site id")
+	flagReport     = flag.String("report", "", "write a JSON report here")
+	flagSimrt      = flag.String("simrt", "github.com/google/safehtml/simrt", "import path of simrt")
+	flagTags       = flag.String("tags", "", "build tags")
+	flagStmtYields = flag.Bool("stmtyields", true, "rule R6: also yield before statements that call or write shared-looking state")
+	flagYieldFn    = flag.String("yieldfn", "Yield", "simrt function called at yield sites: Yield (scheduling point) or Tick (budget only)")
 )
 
 func fatal(f string, a ...interface{}) {
@@ -308,6 +309,14 @@ func (r *rewriter) run() {
 			if doYields {
 				r.yieldAt(n.Body.Lbrace, "funclit")
 			}
+		case *ast.BlockStmt:
+			if doYields && *flagStmtYields {
+				r.stmtYields(n.List)
+			}
+		case *ast.CaseClause:
+			if doYields && *flagStmtYields {
+				r.stmtYields(n.Body)
+			}
 		case *ast.ForStmt:
 			if doYields {
 				r.yieldAt(n.Body.Lbrace, "for")
@@ -335,6 +344,78 @@ func (r *rewriter) run() {
 		}
 		return true
 	})
+}
+
+// stmtYields (rule R6) puts a scheduling point in front of every statement
+// that calls something or writes through a selector, index or pointer: the
+// windows between two such statements are where check-then-act and
+// publish-before-ready mistakes live.  The first statement of a function body
+// already has the function-entry yield.
+func (r *rewriter) stmtYields(list []ast.Stmt) {
+	for i, st := range list {
+		if i == 0 {
+			continue
+		}
+		if !r.interesting(st) {
+			continue
+		}
+		id := r.newSite(st.Pos(), "stmt")
+		r.rep.Yields++
+		r.add(r.off(st.Pos()), 0, fmt.Sprintf("%s(%d); ", r.hook(*flagYieldFn), id))
+	}
+}
+
+func (r *rewriter) interesting(st ast.Stmt) bool {
+	switch s := st.(type) {
+	case *ast.ExprStmt:
+		_, ok := s.X.(*ast.CallExpr)
+		return ok
+	case *ast.AssignStmt:
+		for _, l := range s.Lhs {
+			switch l.(type) {
+			case *ast.SelectorExpr, *ast.IndexExpr, *ast.StarExpr:
+				return true
+			}
+		}
+		for _, x := range s.Rhs {
+			if hasCall(x) {
+				return true
+			}
+		}
+		return false
+	case *ast.IncDecStmt:
+		switch s.X.(type) {
+		case *ast.SelectorExpr, *ast.IndexExpr, *ast.StarExpr:
+			return true
+		}
+		return false
+	case *ast.ReturnStmt:
+		for _, x := range s.Results {
+			if hasCall(x) {
+				return true
+			}
+		}
+		return false
+	case *ast.IfStmt:
+		return s.Init == nil && hasCall(s.Cond) || s.Init != nil
+	case *ast.DeferStmt, *ast.GoStmt:
+		return true
+	}
+	return false
+}
+
+func hasCall(e ast.Expr) bool {
+	found := false
+	ast.Inspect(e, func(n ast.Node) bool {
+		if _, ok := n.(*ast.CallExpr); ok {
+			found = true
+		}
+		if _, ok := n.(*ast.FuncLit); ok {
+			return false
+		}
+		return !found
+	})
+	return found
 }
 
 func pureExpr(e ast.Expr) bool {
